@@ -150,8 +150,20 @@ type FuncSpec struct {
 	External  bool
 	Opts      map[string]string
 	DynCalls  map[string]string // variable name -> "pure" | "noeffect": how calls through that func variable are treated
+	Census    []*Census         // write-site censuses attached to this unit
 	Monitors  []*Monitor        // mutexes treated as monitors: guarded locations are re-read when the lock is acquired
 	Reenter   []*Reenter        // interference: what code reached through the named callees may do to this unit's state
+}
+
+// Census is a write-site census: "census [tag] (*T).f, (*T).g written only by F, (*T).m". The fields are assigned (stored
+// to, or written through an atomic or mutex operation on them) by the listed functions and their closures only; every
+// other function of the module that writes one of them fails the clause. Checked on the SSA of the whole module.
+type Census struct {
+	Fields  []string
+	Writers []string
+	Tag     string
+	Text    string
+	Pos     Pos
 }
 
 // Monitor declares that a mutex of the unit protects some locations: "monitor m.mu guards locs invariant inv". When the
@@ -170,6 +182,7 @@ type Monitor struct {
 type Reenter struct {
 	Callees []string
 	Mods    []Expr
+	Keeping *Clause // what still holds of the forgotten locations (the other party keeps this invariant)
 	Pos     Pos
 }
 
